@@ -32,6 +32,8 @@ type wireGenLine struct {
 const wireT1 = "// café 漢\nvars {\n account $a\n}\nsend [USD 1] (\n source = $a\n destination = @b\n)\n"
 const wireT2 = "// café 漢字 \U0001F600\nvars {\n account $a\n monetary $m\n}\nsend $m (\n source = $a\n destination = @b\n)\n"
 
+const wireT3 = "send [USD 1] (\n source = @caf\u00e9 \u2192 \U0001F600\n destination = @b\n)\n"
+
 func wireBodies() []string {
 	uri := "file:///wire.num"
 	mk := func(id *int, method string, params any) string {
@@ -47,6 +49,8 @@ func wireBodies() []string {
 		mk(nil, "textDocument/didOpen", J{"textDocument": J{"uri": uri, "languageId": "numscript", "version": 1, "text": wireT1}}),
 		mk(nil, "textDocument/didChange", J{"textDocument": J{"uri": uri, "version": 2}, "contentChanges": []any{J{"text": wireT2}}}),
 		mk(&seven, "textDocument/hover", J{"textDocument": J{"uri": uri}, "position": J{"line": 5, "character": 6}}), // on $m of `send $m`
+		// a text whose diagnostics quote characters outside ASCII: the frames the server PRINTS then contain multi-byte characters
+		mk(nil, "textDocument/didChange", J{"textDocument": J{"uri": uri, "version": 3}, "contentChanges": []any{J{"text": wireT3}}}),
 	}
 }
 
